@@ -324,3 +324,28 @@ func first(a, _ []byte) []byte { return a }
 //@     invariant forall(x, 0, 256, implies(x >= i, n256.children[x].pointer == nil && n256.children[x].tag == 0))
 //@     invariant cntP(n256.children, i) == cntNZ(n48.keys, i)
 //@     decreases 256 - i
+
+//@ func (*node16).addChild
+//@   requires n16 != nil && atype(n16) == typeid(node16) && Inv16(n16) && refIs(ref, n16, 1)
+//@   requires lookP16(n16, b) == nil && child.pointer != nil
+//@   ensures[view] forall(x, 0, 256, lookP(*ref, x) == ite(x == b, child.pointer, old(lookP16(n16, x))) && lookT(*ref, x) == ite(x == b, child.tag, old(lookT16(n16, x))))
+//@   ensures[inv] typeOK(*ref) && InvRef(*ref)
+//@   ensures[hdr] hdrSame((*ref).pointer, n16)
+//@   ensures[replaced] (*ref).pointer == n16 || (fresh((*ref).pointer) && Zero16(n16))
+//@   ensures[frame] frame(n16, ref.obj, (*ref).pointer) && frameSlot(ref)
+//@   loop 1 (i)
+//@     modifies B
+//@     invariant 0 <= i && i <= 16 && frame()
+//@     invariant forall(x, 0, 256, n48.keys[x] == first(j, 0, 16, j < i && n16.keys[j] == x) + 1)
+//@     invariant cntNZ(n48.keys, 256) == i
+//@     invariant forall(j, 0, 10, n48.prefix[j] == 0)
+//@     decreases 16 - i
+
+//@ func (*node4).addChild
+//@   requires n4 != nil && atype(n4) == typeid(node4) && Inv4(n4) && refIs(ref, n4, 0)
+//@   requires lookP4(n4, b) == nil && child.pointer != nil
+//@   ensures[view] forall(x, 0, 256, lookP(*ref, x) == ite(x == b, child.pointer, old(lookP4(n4, x))) && lookT(*ref, x) == ite(x == b, child.tag, old(lookT4(n4, x))))
+//@   ensures[inv] typeOK(*ref) && InvRef(*ref)
+//@   ensures[hdr] hdrSame((*ref).pointer, n4)
+//@   ensures[replaced] (*ref).pointer == n4 || (fresh((*ref).pointer) && Zero4(n4))
+//@   ensures[frame] frame(n4, ref.obj, (*ref).pointer) && frameSlot(ref)
